@@ -31,6 +31,7 @@ import subprocess
 import sys
 import tempfile
 import threading
+import time
 from pathlib import Path
 
 from . import c17_env, core, lib, pygen
@@ -564,6 +565,11 @@ def run(tier, seed, replay=None):
 
     rng = random.Random(seed)
     out = core.Outcome("C17")
+    t_start = time.time()
+    timing = {}
+
+    def lap(name):
+        timing[name] = round(time.time() - t_start - sum(timing.values()), 1)
     scratch = Scratch()
     old_cwd = os.getcwd()
     model = ModelProxy()
@@ -748,6 +754,7 @@ def run(tier, seed, replay=None):
                              "hook that records and vetoes open/os.*/subprocess.*/socket.*/ctypes.*/exec/compile/unsafe import")
         out.extra["inertness"] = inert_cov
 
+        lap("scripts_and_inertness")
         # =================================================================== malformed trees (1a)
         if not replay:
             n_mal = 800 if tier == "quick" else 8000
@@ -769,6 +776,7 @@ def run(tier, seed, replay=None):
                     out.disagreements.append({"correspondence": "PyArgs.visit <-> SafetyAnalyzer.visit (hand-built tree)",
                                               "tree": d, "allow_print": ap, "model": ml, "impl": il, "raised": raised})
 
+        lap("malformed_trees")
         # =================================================================== command lines
         def res(p):
             try:
@@ -963,12 +971,11 @@ def run(tier, seed, replay=None):
                                                "signature_text": "placement: " + " ".join(["python"] + toks[1:])})
         out.extra["placement_pairs_checked"] = suffix_checked
 
+        lap("command_lines")
         # =================================================================== environment of the script
         if not replay or replay.get("env_case") is not None:
-            def model_classify(c):
-                return model.call(["py_classify", [os.path.join(c.root, c.cwd)], decoy, c.tokens], oracles)
             out.extra["environment"] = c17_env.run_env(out, H, AN, cfg, scratch.root, tier, rng, replay if replay else None,
-                                                       model_classify if model.available else None)
+                                                       model if model.available else None, dump, decoy, xcheck)
     finally:
         os.chdir(old_cwd)
         model.close()
@@ -977,7 +984,10 @@ def run(tier, seed, replay=None):
     if os.environ.get("C17_DUMP"):
         with open(os.environ["C17_DUMP"], "w") as f:
             json.dump({"violations": out.violations, "disagreements": out.disagreements}, f, indent=1, default=str)
+    lap("environment")
     n, mism = core.coq_crosscheck("C17", xcheck)
+    lap("coq_crosscheck")
+    out.extra["timing_s"] = timing
     out.extra["coq_vm_crosscheck"] = {"cases": n, "mismatches": len(mism)}
     if mism:
         out.disagreements.append({"correspondence": "extracted OCaml model <-> vm_compute in Coq", "detail": mism[:5]})
